@@ -139,10 +139,10 @@ func (cs *connScript) describe() string {
 func nameOf(i int) string { return fmt.Sprintf("n%d.verif.test", i) }
 
 type histStats struct {
-	classes   strings.Builder
-	labels    map[string]bool
-	crossed   bool
-	failThenOK bool
+	classes                                strings.Builder
+	labels                                 map[string]bool
+	crossed                                bool
+	failThenOK                             bool
 	hits, misses, fails, stales, evictions int
 	openEntries, exactEntries              int // stored answers with several admissible expiry instants / exactly one (or none)
 }
@@ -371,9 +371,18 @@ func runHistory(t *testing.T, p *histPlan) (viol string, st *histStats) {
 							viol = "SIG=C17/failure-not-reported " + ctxs()
 							return
 						}
+						if !out.isSentinel() {
+							viol = sigNotSentinel + " " + ctxs()
+							return
+						}
+						st.label("failure-is-ErrLookup")
 						cls = "F"
 						st.fails++
 					case out.isFailure():
+						if !out.isSentinel() {
+							viol = sigNotSentinel + " " + ctxs()
+							return
+						}
 						cls = "F"
 						st.fails++
 					case out.matches(e):
@@ -403,7 +412,7 @@ var recHist = ev.New("C17", "tcp-histories",
 		"optionally delayed (1 ms..25 s), plus dial errors. Oracle: reference model over the items the upstream saw consumed. "+
 		"Non-trivial: the history re-queries an entry whose admissible expiry passed AND has a failed lookup followed by a successful one for the same name; "+
 		"distinct key = cache size, name count and per-step (name, hit/miss/evict/fail/stale) string").
-	Require("expiry-crossed", "failure-then-success", "stale-served-after-failed-refresh", "lru-eviction", "at-expiry-instant", "expiry+1ms", "expiry-1ms",
+	Require("failure-is-ErrLookup", "expiry-crossed", "failure-then-success", "stale-served-after-failed-refresh", "lru-eviction", "at-expiry-instant", "expiry+1ms", "expiry-1ms",
 		"second-connection", "timeout-20s", "tcp-response>512B", "tcp-response>1234B", "tcp-response>4096B", "tcp-response>16384B", "tcp-response>=65000B", "consumed-wrongid", "consumed-notresp", "consumed-nora", "consumed-garbage", "consumed-zerolen", "consumed-midclose",
 		"consumed-cut", "acc-failure-rcode", "acc-nxdomain+soa", "acc-nodata+soa", "acc-nodata", "acc-tc-over-tcp", "expiry-choice-open")
 
